@@ -817,6 +817,7 @@ func runStages(c *core.Ctx) []core.Obligation {
 	if ncall < 4 {
 		add("stage-callers:anchor", nil, false, "", fmt.Sprintf("only %d calls of the stage functions found", ncall))
 	}
+	obs = append(obs, coincidenceShortcuts(c)...)
 	return obs
 }
 
